@@ -243,7 +243,7 @@ def _registry(tier):
         lambda m: ShapeletTransform(min_shapelet_length=3, max_shapelet_length=4, max_shapelets_to_store_per_class=3,
                                     random_state=1, verbose=0), T, (1,), min_m=8, cost=6)
     # ---- dictionary based transformers
-    sax = ((2, 2, 4), (3, 3, 6), (4, 4, 8), (3, 2, 7)) if th else ((3, 3, 6), (3, 2, 7))
+    sax = ((2, 2, 4), (3, 3, 6), (3, 2, 7)) if th else ((3, 3, 6), (3, 2, 7))
     for wl, a, ws in sax:
         for rr in ((False, True) if th else (False,)):
             add("SAX(word_length=%d,alphabet_size=%d,window_size=%d,remove_repeat_words=%s)" % (wl, a, ws, rr),
@@ -261,18 +261,18 @@ def _registry(tier):
         add("SFA(%s)" % ",".join("%s=%r" % kv for kv in kw.items()), lambda m, kw=kw: SFA(**kw), T, (1,), min_m=max(8, kw["window_size"]))
     # ---- classifiers
     boss = ((6, 2, 2, False), (8, 4, 4, False), (5, 2, 3, True)) if not th else \
-        ((6, 2, 2, False), (8, 4, 4, False), (5, 2, 3, True), (4, 2, 2, False), (7, 3, 4, True), (8, 2, 2, False))
+        ((6, 2, 2, False), (8, 4, 4, False), (5, 2, 3, True), (4, 2, 2, False), (7, 3, 4, True))
     for ws, wl, a, nm in boss:
-        for rs in ((0, 1, 2, 3) if th else (1,)):
+        for rs in ((0, 1, 2) if th else (1,)):
             add("IndividualBOSS(window_size=%d,word_length=%d,alphabet_size=%d,norm=%s,random_state=%d)" % (ws, wl, a, nm, rs),
                 lambda m, ws=ws, wl=wl, a=a, nm=nm, rs=rs: IndividualBOSS(window_size=ws, word_length=wl, alphabet_size=a, norm=nm, random_state=rs),
                 C, (1,), min_m=8, kinds=("smooth", "coarse", "dup"), cost=2)
     for ws, wl, lv in (((6, 2, 1), (8, 4, 2)) if not th else ((6, 2, 1), (8, 4, 2), (5, 3, 3), (7, 2, 1))):
-        for rs in ((0, 1, 2) if th else (1,)):
+        for rs in ((0, 1) if th else (1,)):
             add("IndividualTDE(window_size=%d,word_length=%d,levels=%d,random_state=%d)" % (ws, wl, lv, rs),
                 lambda m, ws=ws, wl=wl, lv=lv, rs=rs: IndividualTDE(window_size=ws, word_length=wl, levels=lv, random_state=rs),
                 C, (1, 2), min_m=8, kinds=("smooth", "coarse", "dup"), cost=2)
-    for rs in ((0, 1, 2) if th else (0,)):
+    for rs in ((0, 1) if th else (0,)):
         add("BOSSEnsemble(max_ensemble_size=3,random_state=%d)" % rs, lambda m, rs=rs: BOSSEnsemble(max_ensemble_size=3, random_state=rs),
             C, (1,), min_m=12, cost=6, kinds=("smooth", "coarse", "dup"))
         add("ContractableBOSS(n_parameter_samples=5,max_ensemble_size=3,random_state=%d)" % rs,
@@ -411,7 +411,7 @@ class _Run:
                         ctx, bad, bad[:1], _short(got[bad[0]]) if bad else "", _short(ref[bad[0]]) if bad else ""))
             # ---- instance-wise mapping, for the estimator fitted on either container
             fhs = [h for h in ("nested", "3d") if h in ests]
-            if not th and len(fhs) == 2:
+            if (not th or spec.cost >= 2) and len(fhs) == 2:
                 fhs = [fhs[self.flip % 2]]
             for fh in fhs:
                 est = ests[fh]
@@ -421,7 +421,7 @@ class _Run:
                     continue
                 idx = list(range(n))
                 perms = [idx[::-1], idx[1:] + idx[:1]] if th else [idx[::-1]]
-                for _ in range(3 if th else 1):
+                for _ in range(2 if th else 1):
                     p = idx[:]
                     self.rnd.shuffle(p)
                     perms.append(p)
@@ -445,7 +445,7 @@ class _Run:
                 sels = [idx[:2], [idx[-1], idx[0], idx[-1]], [i for i in idx for _ in (0, 1)]]
                 if th:
                     sels.append(idx[-2:][::-1])
-                for _ in range(3 if th else 1):
+                for _ in range(2 if th else 1):
                     sels.append([self.rnd.randrange(n) for _ in range(self.rnd.randint(1, n + 1))])
                 for s in sels:
                     ctx = "%s X=%s, sub-selection %s" % (self.where(fh, method, ah), self.dte, s)
@@ -519,7 +519,7 @@ def _scenarios(tier, seed):
     """(n_train, n_test, length) -- train sizes differ from the lengths and include n_train > length"""
     if tier == "quick":
         return [(6, 4, 10), (9, 3, 8), (5, 4, 14)]
-    return [(6, 4, 10), (9, 3, 8), (5, 4, 14), (7, 5, 16), (12, 2, 7), (8, 5, 13), (10, 6, 12)]
+    return [(6, 4, 10), (9, 3, 8), (5, 4, 14), (7, 5, 16), (12, 2, 7), (10, 6, 12)]
 
 
 def _signal(P, y):
@@ -571,7 +571,7 @@ def _drive(R, tier, seed, only=None, scen=None, budget=None):
                 continue
             if m < spec.min_m:
                 continue
-            cap = (1 if spec.cost >= 6 else 2 if spec.cost >= 2 else 3) if tier == "quick" else (3 if spec.cost >= 6 else 99)
+            cap = (1 if spec.cost >= 6 else 2 if spec.cost >= 2 else 3) if tier == "quick" else (3 if spec.cost >= 6 else 5 if spec.cost >= 2 else 99)
             if done.get(spec.name, 0) >= cap:
                 continue
             done[spec.name] = done.get(spec.name, 0) + 1
@@ -604,7 +604,7 @@ def bounded(tier, seed):
         "and unequal-length nested panels for the three resizing transformers; fit on {nested of Series, 3D array, nested of ndarrays, nested with "
         "dim_ names and row index from 3} x apply on the same four; reversal, rotation, random permutations, identity (repeat call), every single "
         "instance, prefixes / reversed suffix / repeated instances / random sub-selections. Not runnable here and not covered: %s"
-        % ("6x4x10, 9x3x8, 5x4x14" if tier == "quick" else "6x4x10 ... 12x2x7 (7 shapes)", NOT_RUNNABLE))
+        % ("6x4x10, 9x3x8, 5x4x14" if tier == "quick" else "6x4x10, 9x3x8, 5x4x14, 7x5x16, 12x2x7, 10x6x12", NOT_RUNNABLE))
     _drive(R, tier, seed, budget=50 if tier == "quick" else 540)
     return R.result()
 
@@ -624,7 +624,7 @@ def replay(rec):
     n = max(2, min(6, mint(model, "n_instances", 0) or mint(model, "num_insts", 0) or mint(model, "n", 0) or 4))
     m = max(8, min(16, mint(model, "n_timepoints", 0) or mint(model, "num_atts", 0) or mint(model, "m", 0) or 10))
     scen = [(n + 2, n, m), (9, 3, 8), (5, 4, 14)]
-    _drive(R, "quick", mint(model, "seed", 0), only=only, scen=scen, budget=40)
+    _drive(R, "quick", mint(model, "seed", 0), only=only, scen=scen if only else scen[:2], budget=40 if only else 25)
     # a known finding (KF:) counts as a reproduction only if the replayed target is the class it is about
     f = [x for x in R.failures if only is not None or not x["key"].startswith("KF:")]
     f.sort(key=lambda x: x["key"].startswith("KF:"))
